@@ -1829,8 +1829,6 @@ class RepeatingEngine(Engine):
                     #Calculate time since last task FINISHED
                     perfData = self._perfData_before_launch(perfData, launch_time)
 
-                    self.lastLaunched = launch_time
-                    self._stateDict['lastTaskLaunchDate'] = self.lastLaunched
                     self._stateDict['numberTaskLaunches'] += 1
 
                     outputFile = 'out.stdout'
@@ -1845,6 +1843,11 @@ class RepeatingEngine(Engine):
                         #We need to record something so performance data doesn't become corrupted
                         perfData = self._perfData_launch_failed(perfData, datetime.datetime.now())
                     else:
+                        # VV: record the launch only now that a task exists: after a launch that failed, the output which
+                        #     that execution was meant to observe must still count as new for the next attempt
+                        self.lastLaunched = launch_time
+                        self._stateDict['lastTaskLaunchDate'] = self.lastLaunched
+
                         # VV: Emit right after attempting to launch the process
                         self.emit_now()
 
